@@ -6,7 +6,14 @@ from flowgen import frame, upmsg
 
 def run(ck):
     quick = ck.tier == "quick"
-    cdir, ok = vlib.proof_phase(ck, "Properties_C06.v", translators=("tables", "dispatch"))
+    cdir, ok = vlib.proof_phase(ck, "Properties_C06.v", translators=("tables", "dispatch", "lockcfg"))
+    # lock fact: each uplink queue is only touched under its own mutex (readers racing the receiver)
+    okl, logl = vlib.coq_make(cdir, ["LockProofs.vo"])
+    diag, side = vlib.lock_diagnosis(cdir, kinds=("guard", "balance"), threadsafe_only=True)
+    rel = [d for d in diag if "uplink_" in d["what"]]
+    ck.oblige("lock fact: uplink queues only used under their own mutex", okl and not rel, "; ".join(d["what"] for d in rel[:3]))
+    if not okl or rel:
+        ck.broken.append({"kind": "lock-fact", "name": "guarded_by uplink queue mutexes", "detail": rel[:5] or logl[-800:]})
     exe = vlib.build_harness(); md = vlib.build_model_driver(cdir, "_C06")
     txt = open(os.path.join(cdir, "DispatchTab.v")).read()
     def lst(name): return [int(x) for x in re.search(r'Definition %s : list N := \[(.*?)\]\.' % name, txt).group(1).split(";") if x.strip()]
